@@ -220,8 +220,26 @@ def run(ck, P):
             if ev.block.id in body and (best is None or len(body) < len(best)):
                 best = body
         conds = " ".join(S(w.blocks[b].term["cond"]) for b in (best or ()) if w.blocks[b].term and w.blocks[b].term.get("cond") is not None)
-        ok = held and inloop and "pool->tasks" in conds and "pool->shutdown" in conds and S(ev.args[1]) == LOCK
-        ck.ob("C06.3-COND", w.site("cond_wait"), ok, "wait at line %d: lock held=%s, re-checked predicate: %s" % (ev.line, held, conds))
+        # after the wait control must go straight back to the predicate test: the wait's block ends in a back edge of that loop
+        chain = [ev.block.id]
+        for _ in range(3):      # clang puts an empty transition block on the back edge
+            nx = [x for x in w.blocks[chain[-1]].succs if x is not None]
+            if len(nx) == 1 and not w.blocks[chain[-1]].term:
+                chain.append(nx[0])
+            else:
+                break
+        back = []
+        bes = w.back_edges()
+        for i in range(len(chain) - 1):
+            if (chain[i], chain[i + 1]) in bes and not [e for bb in chain[1:i + 1] for e in w.blocks[bb].events]:
+                back = [(chain[i], chain[i + 1])]
+                break
+        if back:
+            body = w.natural_loop(*back[0])
+            conds = " ".join(S(w.blocks[b].term["cond"]) for b in body if w.blocks[b].term and w.blocks[b].term.get("cond") is not None)
+        retest = bool(back)
+        ok = held and inloop and retest and "pool->tasks" in conds and "pool->shutdown" in conds and S(ev.args[1]) == LOCK
+        ck.ob("C06.3-COND", w.site("cond_wait"), ok, "wait at line %d: lock held=%s, jumps back to re-test=%s, predicate: %s" % (ev.line, held, retest, conds))
     add = fns["m_thpool_add"]
     INy, INm, step = lockstate["m_thpool_add"]
     sig = list(add.calls("pthread_cond_signal"))
